@@ -5,7 +5,7 @@ from .. import varcommon
 def run(ctx):
     ctx.rule = varcommon.RULE + "; the counting machine (any arrival order, any map iteration order, stable sort, threshold filter) is model-checked against AggOf (Aggregate.tla)"
     ctx.tlc("Aggregate", "MC_Aggregate.cfg", workers=8)
-    varcommon.run(ctx, ["C13-"], extra_vecs=variants_boundary_vectors(ctx))
+    varcommon.run(ctx, ["C13-"], rand_n=40 if ctx.quick else 800, extra_vecs=variants_boundary_vectors(ctx))
     snps_part(ctx)
     ctx.assumptions = ["annotation consistent with the genome: every CDS ends in a stop codon of the reference, GenBank /translation and GFF phases are "
                        "computed from the same layout (GFF3 phase semantics)",
